@@ -15,6 +15,7 @@ import GlmVerif.Props.C19.T_srgb2lin_g
 import GlmVerif.Props.C19.T_saturation_grey
 import GlmVerif.Props.C19.T_luminosity
 import GlmVerif.Props.C19.T_rgbColor
+import GlmVerif.Props.C19.T_hsvColor
 /-! every family table of C19 holds for the model generated from the current /repo -/
 namespace Glm.Props.C19
 open Glm Glm.Spec.C19 Glm.Gen.C19
@@ -35,5 +36,6 @@ theorem all_ok : ∀ f ∈ families, f.ok lookup = true := by
     (Family.ok_congr f_srgb2lin_g (fun ks => by rw [show f_srgb2lin_g.unit = "srgb2lin_g" from rfl, lookup_srgb2lin_g])).trans srgb2lin_g_ok,
     (Family.ok_congr f_saturation_grey (fun ks => by rw [show f_saturation_grey.unit = "saturation" from rfl, lookup_saturation])).trans saturation_grey_ok,
     (Family.ok_congr f_luminosity (fun ks => by rw [show f_luminosity.unit = "luminosity" from rfl, lookup_luminosity])).trans luminosity_ok,
-    (Family.ok_congr f_rgbColor (fun ks => by rw [show f_rgbColor.unit = "rgbColor" from rfl, lookup_rgbColor])).trans rgbColor_ok⟩
+    (Family.ok_congr f_rgbColor (fun ks => by rw [show f_rgbColor.unit = "rgbColor" from rfl, lookup_rgbColor])).trans rgbColor_ok,
+    (Family.ok_congr f_hsvColor (fun ks => by rw [show f_hsvColor.unit = "hsvColor" from rfl, lookup_hsvColor])).trans hsvColor_ok⟩
 end Glm.Props.C19
